@@ -241,6 +241,15 @@ theorem free_all_restores (usable : Nat) (ops : List BOp) (a : Arena)
   exact Arena.eq_of_skeleton_allFree hs (Arena.allFree_of_noUsed (hn (init_normal usable)) hnone)
     (initChunks_allFree 64 0 usable)
 
+/-- the segment of the process-shared cache and its locks are shared between processes: every `mmap` of
+`mmap_anonymous` (generated flag lists) is `MAP_SHARED` and never `MAP_PRIVATE`, the mutex and the rwlock
+are created `PTHREAD_PROCESS_SHARED`, inside such pages -/
+theorem segment_and_locks_are_process_shared :
+    (Gen.mmapFlags.all fun f => f.contains "MAP_SHARED" && !f.contains "MAP_PRIVATE") = true ∧
+    Gen.mmapFlags.length = 3 ∧
+    Gen.mutexPshared = "PTHREAD_PROCESS_SHARED" ∧ Gen.rwlockPshared = "PTHREAD_PROCESS_SHARED" ∧
+    Gen.locksInSharedPages = true := by decide
+
 /-- the cache's memory-pressure test looks at the allocator's largest free chunk (shape of
 `shmem_control::max_available()` read by the translator), not at the total free memory -/
 theorem max_available_is_max_free_chunk : Gen.maxAvailableIsMaxFreeChunk = true := rfl
@@ -271,11 +280,30 @@ theorem malloc_order_ge_min (required : Nat) : Gen.minBits ≤ Buddy.orderOf req
     · rename_i h; simp [Gen.alignment, Gen.alignmentBits] at h ⊢; omega
   unfold Buddy.orderOf Buddy.orderOfSize
   have : ¬ Gen.blockSize required ≤ 1 := by omega
-  simp only [this, if_false]
+  simp only [Gen.getBitsInclusive, if_true, this, if_false]
   have h2 : 4 ≤ Nat.log2 (Gen.blockSize required - 1) := by
     rw [Nat.le_log2 (by omega)]
     omega
   simp only [Gen.minBits, Gen.alignmentBits]
+  omega
+
+/-- **a request gets the smallest block that holds it**: the block of order `orderOf n` holds the padded
+request (`blockSize n` = request + header unit, rounded to the alignment) and the next smaller one
+would not.  Depends on the comparison in `get_bits` (`Gen.getBitsInclusive`). -/
+theorem malloc_order_is_smallest (required : Nat) :
+    Gen.blockSize required ≤ 2 ^ Buddy.orderOf required ∧ 2 ^ (Buddy.orderOf required - 1) < Gen.blockSize required := by
+  have h32 : 32 ≤ Gen.blockSize required := by
+    unfold Gen.blockSize
+    split
+    · decide
+    · rename_i h; simp [Gen.alignment, Gen.alignmentBits] at h ⊢; omega
+  unfold Buddy.orderOf Buddy.orderOfSize
+  have : ¬ Gen.blockSize required ≤ 1 := by omega
+  simp only [Gen.getBitsInclusive, if_true, this, if_false, Nat.add_sub_cancel]
+  have hne : Gen.blockSize required - 1 ≠ 0 := by omega
+  have h1 : Gen.blockSize required - 1 < 2 ^ (Nat.log2 (Gen.blockSize required - 1) + 1) :=
+    (Nat.log2_lt hne).mp (Nat.lt_succ_self _)
+  have h2 : 2 ^ Nat.log2 (Gen.blockSize required - 1) ≤ Gen.blockSize required - 1 := Nat.log2_self_le hne
   omega
 
 /-- the defect as found: without the clamp a request of 0 bytes gets a block of order 4 (16 bytes),
